@@ -19,6 +19,9 @@ histories have any length.
 import PybropsModel.Lemmas.SelLimitHistory
 import PybropsModel.Lemmas.GenotypeRounding
 import PybropsModel.Lemmas.SelLimitC01
+import PybropsModel.Lemmas.SelLimitUnphased
+import PybropsModel.Lemmas.MatingFull
+import PybropsModel.Lemmas.SelLimitSpec
 import PybropsModel.Lemmas.Binary64
 set_option autoImplicit false
 set_option linter.unusedSectionVars false
@@ -61,6 +64,22 @@ theorem limits_all_traits (ploidy nv ntr : Nat) (U : List (List α)) (m : UMat) 
         = (List.range ntr).map (fun t => lslF ploidy nv (eff U t) (afreqAt (α := α) ploidy m))
     ∧ gebv nv ntr U m = m.map (fun r => (List.range ntr).map (fun t => gebvF nv (eff U t) (entry r))) :=
   ⟨(usl_list_eq ploidy nv ntr U m).1, (usl_list_eq ploidy nv ntr U m).2, rfl⟩
+
+/-- **Several traits with fixed effects.**  `unscale = True` adds the location `Xstar @ beta`
+    (`Xstar = [1, 1/q, …, 1/q]`, `q` fixed effects) of the trait to both limits, and `gebv(...).unscale()` adds the same
+    location to every breeding value: for every trait `t` of the model, every taxon and every `beta`, the unscaled
+    limits bracket the unscaled breeding value, and they coincide with it when all loci are fixed. -/
+theorem bracket_unscaled_all_traits {ploidy nv : Nat} {m : UMat} (hv : ValidU ploidy nv m) (U beta : List (List α))
+    (t : Nat) (r : List Int) (hr : r ∈ m) :
+    lslF ploidy nv (eff U t) (afreqAt (α := α) ploidy m) + location beta t ≤ gebvF nv (eff U t) (entry r) + location beta t
+    ∧ gebvF nv (eff U t) (entry r) + location beta t ≤ uslF ploidy nv (eff U t) (afreqAt (α := α) ploidy m) + location beta t
+    ∧ ((∀ j, j < nv → afixedOf (afreqAt (α := α) ploidy m j) = true) →
+        lslF ploidy nv (eff U t) (afreqAt (α := α) ploidy m) + location beta t = gebvF nv (eff U t) (entry r) + location beta t
+        ∧ uslF ploidy nv (eff U t) (afreqAt (α := α) ploidy m) + location beta t = gebvF nv (eff U t) (entry r) + location beta t) := by
+  obtain ⟨_, _, c, d⟩ := bracket hv (eff U t) (location beta t) r hr
+  refine ⟨c, d, fun hfix => ?_⟩
+  obtain ⟨e1, e2⟩ := fixed_collapse hv (eff U t) hfix r hr
+  exact ⟨by rw [e1], by rw [e2]⟩
 
 /-- bracket for a phased population: taxon `i` has dosages `psumAt G i` -/
 theorem bracket_phased {nt nv : Nat} {G : PMat} (hv : ValidP nt nv G) (u : Nat → α) (i : Nat) (hi : i < nt) :
@@ -115,6 +134,59 @@ theorem history_limits_only_tighten {nv : Nat} (h : List Pop) (hh : IsHistory nv
 /-- **Selection is a closed step** (any index list, repeats allowed): `select_taxa`. -/
 theorem selection_is_closed (nv nt : Nat) (idx : List Nat) (G : PMat) :
     ClosedStep nv ⟨nt, G⟩ ⟨idx.length, selectTaxa idx G⟩ := selectTaxa_closed nv nt idx G
+
+/-- **Selection by IN-PLACE culling is a closed step**: `remove_taxa(idx)` on the population object itself (the
+    survivors are the taxa whose index is not listed, in their order, in every phase) leaves a valid population of
+    `keptCount idx nt` taxa all of whose alleles, locus by locus, were in the population before — so by
+    `history_limits_only_tighten` the limits evaluated after the culling lie inside those evaluated before. -/
+theorem inplace_culling_is_closed {nt nv : Nat} {G : PMat} (hv : ValidP nt nv G) (idx : List Nat)
+    (hpos : 0 < keptCount idx nt) (u : Nat → α) :
+    ClosedStep nv ⟨nt, G⟩ ⟨keptCount idx nt, removeTaxa idx G⟩
+    ∧ ValidP (keptCount idx nt) nv (removeTaxa idx G)
+    ∧ uslF (removeTaxa idx G).length nv u (pafreqAt (α := α) (keptCount idx nt) (removeTaxa idx G))
+        ≤ uslF G.length nv u (pafreqAt (α := α) nt G)
+    ∧ lslF G.length nv u (pafreqAt (α := α) nt G)
+        ≤ lslF (removeTaxa idx G).length nv u (pafreqAt (α := α) (keptCount idx nt) (removeTaxa idx G)) := by
+  have hc := removeTaxa_closed nv nt (keptCount idx nt) idx G
+  have hq := removeTaxa_valid hv idx hpos
+  obtain ⟨s1, s2⟩ := step_limits (α := α) (P := ⟨nt, G⟩) (Q := ⟨keptCount idx nt, removeTaxa idx G⟩) hv hq hc u
+  exact ⟨hc, hq, s1, s2⟩
+
+/-- **Unphased populations of ANY ploidy** (dosage matrices, genotype codes `0..ploidy`): along any history of closed
+    steps on dosage matrices — allele 1 (some dosage `> 0`) and allele 0 (some dosage `< ploidy`) are present at a
+    locus of the later population only if present in the earlier one — for positions `a ≤ b` and any effect vector:
+    the upper limit at `b` is ≤ the one at `a`, the lower limit at `b` is ≥ the one at `a`, every member of
+    population `b` lies between the limits of population `a`, and a lost allele stays lost. -/
+theorem unphased_history_limits_only_tighten {ploidy nv : Nat} (h : List UMat) (hh : IsHistoryU ploidy nv h)
+    (hv : ∀ P ∈ h, ValidU ploidy nv P) (a b : Nat) (hab : a ≤ b) (hb : b < h.length) (u : Nat → α) :
+    let A := h[a]'(lt_of_le_of_lt hab hb)
+    let B := h[b]
+    uslF ploidy nv u (afreqAt (α := α) ploidy B) ≤ uslF ploidy nv u (afreqAt (α := α) ploidy A)
+    ∧ lslF ploidy nv u (afreqAt (α := α) ploidy A) ≤ lslF ploidy nv u (afreqAt (α := α) ploidy B)
+    ∧ (∀ r ∈ B, lslF ploidy nv u (afreqAt (α := α) ploidy A) ≤ gebvF nv u (entry r)
+        ∧ gebvF nv u (entry r) ≤ uslF ploidy nv u (afreqAt (α := α) ploidy A))
+    ∧ (∀ j, j < nv → ((¬ ∃ r ∈ A, 0 < entry r j) → ¬ ∃ r ∈ B, 0 < entry r j)
+        ∧ ((¬ ∃ r ∈ A, entry r j < (ploidy : Int)) → ¬ ∃ r ∈ B, entry r j < (ploidy : Int))) := by
+  intro A B
+  have ha : a < h.length := lt_of_le_of_lt hab hb
+  have hA : ValidU ploidy nv A := hv A (List.getElem_mem ha)
+  have hB : ValidU ploidy nv B := hv B (List.getElem_mem hb)
+  have hstep : ClosedStepU ploidy nv A B := by
+    rcases Nat.lt_or_eq_of_le hab with hlt | heq
+    · exact (List.pairwise_iff_getElem.mp (historyU_pairwise ploidy nv h hh)) a b ha hb hlt
+    · subst heq; exact closedStepU_refl ploidy nv _
+  obtain ⟨s1, s2⟩ := step_limits_U (α := α) hA hB hstep u
+  refine ⟨s1, s2, ?_, ?_⟩
+  · intro r hr
+    obtain ⟨b1, b2⟩ := bracketU (α := α) hB u hr
+    exact ⟨le_trans s2 b1, le_trans b2 s1⟩
+  · intro j hj
+    exact ⟨fun hna hin => hna ((hstep j hj).1 hin), fun hna hin => hna ((hstep j hj).2 hin)⟩
+
+/-- **Selection rounds on an unphased population** — `select_taxa` (any index list, a new object) and `remove_taxa`
+    (in place), in any order and number — form such a history, for every ploidy. -/
+theorem unphased_selection_rounds_form_a_history (ploidy nv : Nat) (m : UMat) (steps : List Cull) :
+    IsHistoryU ploidy nv (cullTrajectory m steps) := cullTrajectory_history ploidy nv steps m
 
 end history
 
@@ -204,6 +276,22 @@ theorem mating_is_closed_C01 {P : Mating.Proto} {pop : Meiosis.Pop Int} {xc : Li
   have hv := c01_mate_valid h hnn hpop hne
   obtain ⟨s1, s2⟩ := step_limits (α := α) (P := parents) (Q := prog) hpop hv hc u
   exact ⟨hc, hv, s1, s2⟩
+
+/-- **Marker order is preserved through mating** (the tie to C01's metadata theorem).  For the public call of every
+    protocol (C01's `Mating.mateFull`: integer cross configuration with numpy's index rule, counts, selfing, any
+    non-negative draws): the marker metadata of the progeny matrix is that of the parents, unchanged and in the same
+    order (`C01.metadata_carried_over`), every progeny chromosome has one entry per marker, and the allele a progeny
+    carries at marker `j` is an allele a parent carries AT MARKER `j` — so the effect vector of the genomic model, which
+    is positional, keeps meaning the same markers in every generation. -/
+theorem marker_order_preserved_C01 {μ : Type} {P : Mating.Proto} {pop : Meiosis.Pop Int} {pg m : Mating.VMeta μ}
+    {xc : List (List Int)} {nmating nprogeny : Mating.Cnt} {nself : Nat} {xo : List ρ} {pc fc : Nat}
+    {draws : List (Meiosis.DrawMat ρ)} {out : Mating.Out Int}
+    (h : Mating.mateFull P pop pg xc nmating nprogeny nself xo pc fc draws = .ok (out, m)) (hnn : Mating.Nonneg draws) :
+    m = pg
+    ∧ ∀ r ∈ out.rows, (r.ind.1.length = xo.length ∧ r.ind.2.length = xo.length)
+        ∧ ∀ j, j < xo.length → entry r.ind.1 j ∈ popCopies (toPM pop) j ∧ entry r.ind.2 j ∈ popCopies (toPM pop) j := by
+  obtain ⟨hcore, hm⟩ := Mating.mateFull_inv h
+  exact ⟨hm, c01_mate_rows hcore hnn⟩
 
 /-- the code's check on a count argument yields exactly one count per cross (what `mating_is_closed` assumes) -/
 theorem count_check_gives_one_count_per_cross (c : Mating.Cnt) (ncross : Nat) (l : List Nat)
@@ -303,6 +391,17 @@ theorem limits_rounded_exact_phased_partial (h : RoundingContract rnd e) {nt nv 
     lslF_congr G.length nv u _ _ e2, lslF_congr G.length nv u (pafreqAt (α := ℚ) nt G) _ e1]
   exact ⟨a, b⟩
 
+/-- the size hypothesis of the three `_partial` theorems above cannot be dropped: `snapUp (1/4)` meets the rounding
+    contract with half-ulp 1/4, and for five haploid taxa one of which carries allele 0 (`5 · 1/4 > 1`) the limit
+    computed from the rounded frequency treats the locus as fixed: upper limit −1 instead of 0 (effect −1), while the
+    member carrying allele 0 has breeding value 0 — outside the rounded limits -/
+theorem limits_rounded_full_statement_counterexample :
+    RoundingContract (snapUp (1 / 4)) (1 / 4)
+    ∧ uslF 1 1 (fun _ => (-1 : ℚ)) (fun j => snapUp (1 / 4) (afreqAt (α := ℚ) 1 [[1], [1], [1], [1], [0]] j)) = -1
+    ∧ uslF 1 1 (fun _ => (-1 : ℚ)) (afreqAt (α := ℚ) 1 [[1], [1], [1], [1], [0]]) = 0
+    ∧ gebvF 1 (fun _ => (-1 : ℚ)) (entry [0]) = 0 := by
+  refine ⟨snapUp_contract _ (by norm_num) (by norm_num), ?_, ?_, ?_⟩ <;> decide +kernel
+
 /-- **Why the repair of the frequency matters for the limits (defect D1, fixed in /repo).**  49 diploid
     taxa fixed for allele 1 at one locus with effect −1: every member has breeding value −2.  On binary64
     (`Float`, evaluated by the kernel) the pre-repair frequency `(1/98)·98 < 1` makes the upper limit 0
@@ -317,6 +416,38 @@ theorem recip_form_limits_counterexample :
     ∧ (gebvF (α := Float) 1 (fun _ => -1.0) (entry [2]) == -2.0) = true := by decide +kernel
 
 end rounding
+
+/-! ## 4. The Spec oracle the driver evaluates on the implementation's trajectory (Model/SelLimitSpec.lean) -/
+section spec
+open SelLimitSpec
+variable {α : Type} [Field α] [LinearOrder α] [IsStrictOrderedRing α]
+
+/-- **spec_sound (phased histories).**  Along ANY closed history of valid phased populations (selection by
+    `select_taxa`, in-place culling, any of the seven protocols: any closed steps), what the model reports for every
+    population — limits with and without the location, breeding values of all traits and taxa, for every additive
+    model `U`, `beta` — passes EVERY clause of the Spec the driver evaluates on the implementation's trajectory
+    (`specHistory`: shape, bracket, unscaled bracket, collapse when fixed, limits only tighten for every pair of
+    generations, descendants inside every ancestor's limits, no allele reappears), for every tolerance ≥ 0. -/
+theorem spec_sound_phased_history {nv : Nat} (ntr : Nat) (U beta : List (List α)) (tol : α) (ht : 0 ≤ tol)
+    (h : List Pop) (hh : IsHistory nv h) (hv : ∀ P ∈ h, ValidP P.nt nv P.G) :
+    specHistory nv ntr tol (h.map (popInP nv)) (h.map (obsP nv ntr U beta)) = [] :=
+  specHistory_sound_P ntr U beta tol ht h hh hv
+
+/-- **spec_sound (unphased histories, any ploidy)** — dosage matrices with genotype codes `0..ploidy`, steps closed at
+    the dosage level (rounds of `select_taxa` / `remove_taxa` are: `unphased_selection_rounds_form_a_history`). -/
+theorem spec_sound_unphased_history {ploidy nv : Nat} (ntr : Nat) (U beta : List (List α)) (tol : α) (ht : 0 ≤ tol)
+    (h : List UMat) (hh : IsHistoryU ploidy nv h) (hv : ∀ Z ∈ h, ValidU ploidy nv Z) :
+    specHistory nv ntr tol (h.map (popInU ploidy)) (h.map (obsU nv ntr U beta ploidy)) = [] :=
+  specHistory_sound_U ntr U beta tol ht h hh hv
+
+/-- **spec_iff (the step oracles).**  The two Bool tests the Spec applies to consecutive populations decide exactly the
+    closed-step relations of the theorems: allele level for phased populations, dosage level for unphased ones. -/
+theorem spec_iff_step (ploidy nv : Nat) (P Q : Pop) (A B : UMat) :
+    (closedStepB nv P Q = true ↔ ClosedStep nv P Q)
+    ∧ (closedStepUB ploidy nv A B = true ↔ ClosedStepU ploidy nv A B) :=
+  ⟨closedStepB_iff nv P Q, closedStepUB_iff ploidy nv A B⟩
+
+end spec
 
 /-! ## non-vacuity (kernel-evaluated) -/
 
@@ -335,6 +466,26 @@ example : StepsOk (α := Rat) 2 [⟨[1, 0], .twoWayDH, [[0, 1]], [1], [3], 1, []
 /-- a history in which an allele is lost: locus 0 loses allele 0, locus 1 loses allele 1 -/
 example : IsHistory 2 [⟨2, [[[1, 0], [0, 1]], [[1, 0], [1, 0]]]⟩, ⟨1, [[[1, 0]], [[1, 0]]]⟩] := by
   refine ⟨(closedStepB_iff _ _ _).mp (by decide), trivial⟩
+
+/-- unphased tetraploids: a selection round (select_taxa, then in-place culling) is a history; an allele is lost -/
+example : ValidU 4 2 [[4, 0], [3, 1], [4, 4]] := by decide
+example : cullTrajectory [[4, 0], [3, 1], [4, 4]] [.select [0, 2, 2], .remove [1]] =
+    [[[4, 0], [3, 1], [4, 4]], [[4, 0], [4, 4], [4, 4]], [[4, 0], [4, 4]]] := by decide
+example : closedStepUB 4 2 [[4, 0], [3, 1], [4, 4]] [[4, 0], [4, 4]] = true
+    ∧ closedStepUB 4 2 [[4, 0], [4, 4]] [[4, 0], [3, 1], [4, 4]] = false := by decide
+/-- in-place culling of a phased population down to one homozygous line -/
+example : removeTaxa [0, 2] [[[1, 0], [0, 1], [1, 1]], [[1, 0], [0, 1], [0, 1]]] = [[[0, 1]], [[0, 1]]]
+    ∧ keptCount [0, 2] 3 = 1 := by decide
+
+/-- the Spec accepts the model's report on a two-generation history and rejects a report whose upper limit rises -/
+example : SelLimitSpec.specHistory (α := Rat) 2 1 0
+    [SelLimitSpec.popInU 4 [[4, 0], [3, 1], [4, 4]], SelLimitSpec.popInU 4 [[4, 0], [4, 4]]]
+    [SelLimitSpec.obsU 2 1 [[1], [-2]] [[3]] 4 [[4, 0], [3, 1], [4, 4]],
+     SelLimitSpec.obsU 2 1 [[1], [-2]] [[3]] 4 [[4, 0], [4, 4]]] = [] := by decide +kernel
+example : SelLimitSpec.specHistory (α := Rat) 2 1 0
+    [SelLimitSpec.popInU 4 [[4, 0], [4, 4]], SelLimitSpec.popInU 4 [[4, 0], [4, 4]]]
+    [SelLimitSpec.obsU 2 1 [[1], [-2]] [[3]] 4 [[4, 0], [4, 4]],
+     { SelLimitSpec.obsU 2 1 [[1], [-2]] [[3]] 4 [[4, 0], [4, 4]] with usl := [5] }] ≠ [] := by decide +kernel
 
 /-- `mating_is_closed_C01` is not vacuous: C01's model accepts a three-way DH cross with array counts and selfing
     between binary parents (and rejects a count array of the wrong length) -/
